@@ -8,14 +8,14 @@ git -C $WT checkout -q --detach $HEAD 2>/dev/null
 git -C $WT checkout -q -- . 
 ( cd $WT && git apply $SEED/patch.diff ) || { echo "PATCH DOES NOT APPLY"; exit 9; }
 echo "== tests with patch:"; ( cd $WT && PYTHONPATH=$WT/src /venv/bin/python -m pytest -q -p no:cacheprovider 2>&1 | tail -1 )
-echo "== demo with patch (expect exit 1):"; ( cd /tmp && /venv/bin/python $SEED/demo.py $WT >/tmp/demo.out 2>&1; echo "exit $?"; tail -3 /tmp/demo.out )
+echo "== demo with patch (expect exit 1):"; ( cd /tmp && /venv/bin/python $SEED/demo.py $WT >$WT/.demo.out 2>&1; echo "exit $?"; tail -3 $WT/.demo.out )
 for P in "$@"; do
   echo "== check $P against patched tree:"
-  ( cd /verif && VF_REPO=$WT VF_OUT=/tmp/vf-seed-out ./vf check $P > /tmp/vf-seed-check.out 2>&1
-    echo "   violations: $(grep -c '^VIOLATION property' /tmp/vf-seed-check.out)  with replayed input: $(grep '^VIOLATION property' /tmp/vf-seed-check.out | grep -vc no-failing-input-found)"
-    grep '^VIOLATION property' /tmp/vf-seed-check.out | grep -v no-failing-input-found | head -2
-    grep '^VIOLATION property' /tmp/vf-seed-check.out | grep no-failing-input-found | head -1
-    grep -E "^RESULT|^CHECKER|^UNDECIDED|^SUMMARY" /tmp/vf-seed-check.out | head -5 )
+  ( cd /verif && VF_REPO=$WT VF_OUT=$WT/.vf-seed-out ./vf check $P > $WT/.vf-seed-check.out 2>&1
+    echo "   violations: $(grep -c '^VIOLATION property' $WT/.vf-seed-check.out)  with replayed input: $(grep '^VIOLATION property' $WT/.vf-seed-check.out | grep -vc no-failing-input-found)"
+    grep '^VIOLATION property' $WT/.vf-seed-check.out | grep -v no-failing-input-found | head -2
+    grep '^VIOLATION property' $WT/.vf-seed-check.out | grep no-failing-input-found | head -1
+    grep -E "^RESULT|^CHECKER|^UNDECIDED|^SUMMARY" $WT/.vf-seed-check.out | head -5 )
 done
 ( cd $WT && git checkout -q -- . )
-echo "== demo without patch (expect exit 0):"; ( cd /tmp && /venv/bin/python $SEED/demo.py $WT >/tmp/demo.out 2>&1; echo "exit $?" )
+echo "== demo without patch (expect exit 0):"; ( cd /tmp && /venv/bin/python $SEED/demo.py $WT >$WT/.demo.out 2>&1; echo "exit $?" )
